@@ -9,8 +9,13 @@ is stored under _build/c02cache; a Gen file is recompiled whenever its text or a
 import hashlib, json, os, re, shutil, subprocess, time
 import vlib
 
-GEN_NAME = "Gen" + vlib._TAG
-GEN = os.path.join(vlib.COQ, GEN_NAME)
+# runs against a scratch worktree (VERIF_REPO) generate under coq/_run (ignored by git and by the full build) and clean up
+GEN_NAME = "Gen" if not vlib._TAG else "_run.Gen" + vlib._TAG          # logical path below PGV
+GEN_DIR = GEN_NAME.replace(".", "/")                                    # directory below coq/
+GEN = os.path.join(vlib.COQ, GEN_DIR)
+if vlib._TAG:
+    import atexit
+    atexit.register(lambda: shutil.rmtree(GEN, ignore_errors=True))
 TOOLS = os.path.join(vlib.VERIF, "tools")
 CACHE = os.path.join(vlib.BUILD, "c02cache")
 SYMEX_FUEL = 6000
@@ -275,8 +280,9 @@ def gen_system(sysd):
     probe.append("Definition %s_probe_defs := Eval vm_compute in (defs_check %s_Dgo %s_Dtla, defs_diff %s_Dgo %s_Dtla).\nPrint %s_probe_defs.\n"
                  % (name, name, name, name, name, name))
     for l in ok_labels:
-        probe.append('Definition probe_%s := Eval vm_compute in ("%s", equiv_check %s %s, if equiv_check %s %s then "" else explain %s %s).\nPrint probe_%s.\n'
-                     % (l["thm"], l["id"], l["g"], l["t"], l["g"], l["t"], l["g"], l["t"], l["thm"]))
+        probe.append('Definition probe_%s := Eval vm_compute in (let g := %s in let t := %s in let b := equiv_check g t in\n'
+                     '  ("%s", b, if b then "" else explain g t)).\nPrint probe_%s.\n'
+                     % (l["thm"], l["g"], l["t"], l["id"], l["thm"]))
     ch |= write_if_changed(os.path.join(GEN, name + "_probe.v"), "".join(probe))
     # differential-execution tables (search oracle)
     wk = [imp.replace("C02.Show", "C02.Show C02.Walk").replace("%s.%s_tla." % (GEN_NAME, name), "%s.%s_tla %s.%s_trees." % (GEN_NAME, name, GEN_NAME, name))]
@@ -305,6 +311,35 @@ def gen_system(sysd):
     ch |= write_if_changed(os.path.join(GEN, name + "_walkdefs.v"), "".join(wk))
     info["changed"] = ch
     return info
+
+
+class GenLock:
+    """serialises the compilation of one system's generated files (the global coq lock is only taken, briefly,
+    for the hand-written C02 files, so that long vm_compute runs do not block the other properties' checks)"""
+    def __init__(self, name):
+        self.p = os.path.join(vlib.BUILD, "c02_%s_%s.lock" % (GEN_DIR.replace("/", "_"), name))
+    def __enter__(self):
+        import fcntl
+        os.makedirs(vlib.BUILD, exist_ok=True)
+        self.f = open(self.p, "w")
+        fcntl.flock(self.f, fcntl.LOCK_EX)
+    def __exit__(self, *a):
+        import fcntl
+        fcntl.flock(self.f, fcntl.LOCK_UN)
+        self.f.close()
+
+
+def build_base(names, log):
+    """the hand-written files outside the closure of Properties/C02.v: Show, Walk and the Bind files"""
+    with vlib.CoqLock():
+        for rel, deps in [("C02/Show.v", BASE_DEPS[:2]), ("C02/Walk.v", BASE_DEPS[:2] + ["C02/Show.v"])] + \
+                [("C02/Bind_%s.v" % n, BASE_DEPS[:2] + (["C02/Bind_pbkvs.v"] if n == "bug_167" else [])) for n in names]:
+            if stale(rel, deps):
+                rc, o, e = coqc(rel)
+                log.append("coqc %s rc=%d" % (rel, rc))
+                if rc != 0:
+                    return "hand-written %s does not compile: %s" % (rel, (o + e)[-800:])
+    return None
 
 
 def coqc(rel, timeout=1200):
@@ -345,10 +380,10 @@ def check_system(info, log):
     """compile the regenerated files, probe every label, write and compile <sys>_equiv.v with one theorem
     per label that checks. Fills info['labels'][i]['proved'|'why'] and info['defs_ok']."""
     name = info["name"]
-    g = GEN_NAME + "/" + name
+    g = GEN_DIR + "/" + name
     bind = "C02/Bind_%s.v" % name
-    with vlib.CoqLock():
-        steps = [(bind, BASE_DEPS[:2]), (g + "_go.v", BASE_DEPS[:2]), (g + "_tla.v", BASE_DEPS[:2]),
+    with GenLock(name):
+        steps = [(g + "_go.v", BASE_DEPS[:2]), (g + "_tla.v", BASE_DEPS[:2]),
                  (g + "_trees.v", BASE_DEPS[:4] + [bind, g + "_go.v", g + "_tla.v"])]
         for rel, deps in steps:
             if stale(rel, deps):
@@ -359,7 +394,8 @@ def check_system(info, log):
                     return
         # probe (output needed, so it is evaluated on every run unless the result is cached for identical inputs)
         pkey = sha(*[open(os.path.join(vlib.COQ, r)).read() for r in
-                     [g + "_go.v", g + "_tla.v", g + "_trees.v", g + "_probe.v", bind] + BASE_DEPS[:4]])
+                     [g + "_go.v", g + "_tla.v", g + "_trees.v", g + "_probe.v", bind] + BASE_DEPS[:4]]).replace("/", "_")
+        pkey = sha(pkey, GEN_NAME)
         pc = os.path.join(CACHE, "probe_" + pkey + ".txt")
         if os.path.exists(pc):
             out = open(pc).read()
@@ -392,7 +428,7 @@ def check_system(info, log):
                        "Proof. rewrite <- %s_defs_equal. apply equiv_sound. vm_compute. reflexivity. Qed.\nPrint Assumptions %s.\n\n"
                        % (l["thm"], name, l["g"], name, l["t"], name, l["thm"]))
     write_if_changed(os.path.join(GEN, name + "_equiv.v"), "".join(thm))
-    with vlib.CoqLock():
+    with GenLock(name):
         rel = g + "_equiv.v"
         if stale(rel, BASE_DEPS + [bind, g + "_go.v", g + "_tla.v", g + "_trees.v"]):
             rc, o, e = coqc(rel, timeout=2400)
@@ -416,13 +452,11 @@ def run_walks(info, rnds, steps, log):
     """run the two regenerated models against each other on the walks given by the lists of naturals.
     -> (list of mismatch dicts, {label: committed steps}, error or None)"""
     name = info["name"]
-    g = GEN_NAME + "/" + name
+    g = GEN_DIR + "/" + name
     bind = "C02/Bind_%s.v" % name
-    with vlib.CoqLock():
+    with GenLock(name):
         rel = g + "_walkdefs.v"
         if stale(rel, BASE_DEPS[:4] + ["C02/Walk.v", bind, g + "_go.v", g + "_tla.v", g + "_trees.v"]):
-            if stale("C02/Walk.v", BASE_DEPS[:4]):
-                coqc("C02/Walk.v")
             rc, o, e = coqc(rel)
             log.append("coqc %s rc=%d" % (rel, rc))
             if rc != 0:
@@ -453,3 +487,15 @@ def run_walks(info, rnds, steps, log):
                     d[k.strip()] = v.strip()
             mism.append(d)
     return mism, cover, None
+
+
+def force_recheck():
+    """thorough tier: drop every compiled generated file and cached probe so that everything is re-checked"""
+    if os.path.isdir(GEN):
+        for f in os.listdir(GEN):
+            if f.endswith((".vo", ".vok", ".vos", ".glob", ".log")):
+                os.remove(os.path.join(GEN, f))
+    if os.path.isdir(CACHE):
+        for f in os.listdir(CACHE):
+            if f.startswith("probe_"):
+                os.remove(os.path.join(CACHE, f))
